@@ -263,6 +263,8 @@ fn run_handler(ctx: &RunCtx) -> RunOut {
 // the real state machine against the in-process mock
 
 struct MockDirector {
+    /// the reconfigurations assert the cohort the mock itself hands out ("1:1:") for every app
+    assert_handed_cohort: bool,
     second_app: Option<OmahaResponse>,
     server: tokio::sync::Mutex<OmahaServer>,
     /// reconfigure (through the server's own endpoint) before update check number i (0-based)
@@ -275,9 +277,10 @@ impl Director for MockDirector {
             if let Some(Some(k)) = self.reconfig_before.get(self.seen_uc).cloned() {
                 {
                     // reconfigure through the server's own endpoint
-                    let mut body = json!({"app-A": {"response": format!("{k:?}"), "check_assertion": "UpdatesEnabled", "version": "1.2.3.4", "cohort_assertion": null, "codebase": "fuchsia-pkg://x/", "package_name": "pkg"}});
+                    let ca = if self.assert_handed_cohort { json!("1:1:") } else { serde_json::Value::Null };
+                    let mut body = json!({"app-A": {"response": format!("{k:?}"), "check_assertion": "UpdatesEnabled", "version": "1.2.3.4", "cohort_assertion": ca, "codebase": "fuchsia-pkg://x/", "package_name": "pkg"}});
                     if let Some(kb) = self.second_app {
-                        body["app-B"] = json!({"response": format!("{kb:?}"), "check_assertion": "UpdatesEnabled", "version": "5.6.7.8", "cohort_assertion": null, "codebase": "fuchsia-pkg://x/", "package_name": "pkg"});
+                        body["app-B"] = json!({"response": format!("{kb:?}"), "check_assertion": "UpdatesEnabled", "version": "5.6.7.8", "cohort_assertion": ca, "codebase": "fuchsia-pkg://x/", "package_name": "pkg"});
                     }
                     let r = hyper::Request::post("/set_responses_by_appid").body(hyper::Body::from(body.to_string())).unwrap();
                     let _ = call(&self.server, r);
@@ -345,7 +348,12 @@ fn run_sm(ctx: &RunCtx) -> RunOut {
     if let Some(k) = second_app {
         map.insert("app-B".to_string(), ResponseAndMetadata { response: k, version: Some("5.6.7.8".into()), ..Default::default() });
     }
+    // after a first check that the client accepted, every app carries the cohort the mock hands out:
+    // a reconfiguration may then assert it (for all apps)
+    let first_accepted = !forced_etag && kind != OmahaResponse::InvalidResponse;
+    let assert_handed_cohort = reconfig > 0 && first_accepted && !cohort_assertion && choose("reconfiguration_asserts_handed_cohort", 2) == 1;
     let d = MockDirector {
+        assert_handed_cohort,
         second_app,
         server: tokio::sync::Mutex::new(OmahaServer {
             responses_by_appid: map,
@@ -456,7 +464,7 @@ fn parts(tier: Tier) -> Vec<PartDef> {
         PartDef::new(
             "state-machine-vs-mock",
             Cfg::new("C17/state-machine-vs-mock"),
-            json!({"response_kinds": 5, "forced_etag": 2, "cup": 2, "urls": URLS.len(), "initial_cohort_assertion_dropped_by_the_reconfiguration": [false, true], "second_app": ["none", "NoUpdate", "Update"], "second_app_position": 2, "reconfigure_between_checks": "before check 2 and before check 3: none or to each of 5 kinds (through /set_responses_by_appid)", "checks_per_run": 3, "exploration": "full product"}),
+            json!({"response_kinds": 5, "forced_etag": 2, "cup": 2, "urls": URLS.len(), "initial_cohort_assertion_dropped_by_the_reconfiguration": [false, true], "reconfiguration_asserts_the_cohort_the_mock_hands_out": [false, true], "second_app": ["none", "NoUpdate", "Update"], "second_app_position": 2, "reconfigure_between_checks": "before check 2 and before check 3: none or to each of 5 kinds (through /set_responses_by_appid)", "checks_per_run": 3, "exploration": "full product"}),
             run_sm,
         ),
     ]
